@@ -202,9 +202,9 @@ static void enumerate(void)
 			for (int M = 1; M <= 2; M++) {
 				add((c04_cfg){ 1, Q, M, 1, 0, adv, pre, 0, 0, -1 });
 				add((c04_cfg){ 1, Q, M, 0, M + pre, adv, pre, 0, 0, -1 });
-				add((c04_cfg){ 2, Q, M, 0, 2 * M + pre, adv, pre, 0, 0, (M == 2 && !th) ? 3 : -1 });
+				add((c04_cfg){ 2, Q, M, 0, 2 * M + pre, adv, pre, 0, 0, M == 2 ? (th ? 4 : 3) : -1 });
 				/* quick tier: the longest executions (retrying senders on a pre-filled queue) are preemption-bounded */
-				add((c04_cfg){ 2, Q, M, 1, 0, adv, pre, 0, 0, ((M == 2 || pre >= 2) && !th) ? 3 : -1 });
+				add((c04_cfg){ 2, Q, M, 1, 0, adv, pre, 0, 0, M == 2 ? (th ? 4 : 3) : (pre >= 2 && !th) ? 3 : -1 });
 				add((c04_cfg){ 2, Q, M, 0, 0, adv, pre, 3, 0, -1 });			/* senders only */
 			}
 			add((c04_cfg){ 3, Q, 1, 0, 3 + pre, adv, pre, 0, 0, th ? 3 : 2 });
